@@ -528,7 +528,8 @@ def selftest():
         cfg = os.path.join(vlib.SPEC, f"MC_Lifecycle_self_{dev}.gen.cfg")
         # (a close() missed by the sender is healed by the wake-up at the end of the association, so the
         # check-then-park window only shows together with ExitDoesNotWake)
-        mc_cfg(cfg, devs=[dev] + (["ExitDoesNotWake"] if dev == "SendCheckThenPark" else []), max_events=1, wfc=1,
+        mc_cfg(cfg, devs=[dev] + (["ExitDoesNotWake"] if dev == "SendCheckThenPark" else []), max_events=1,
+               wfc=0 if dev == "GraceNotRearmed" else 1,   # (no pending wait_for_connected where the fallbacks are off)
                phases=["offerMade", "dtlsHandshaking", "channelsOpen", "senderBlocked"],
                flaps=1 if dev == "GraceNotRearmed" else 0, ice_fallback=dev != "GraceNotRearmed")
         res = vlib.tlc("MC_Lifecycle", os.path.basename(cfg), workers=6, timeout=1200, tag=f"self_{dev}")
